@@ -570,6 +570,10 @@ impl World {
                 if v.get("post_rates").is_none() {
                     return Err("oracle: unknown message".into());
                 }
+                // fault 3: the oracle contract is paused / broken and rejects every post
+                if self.ibc.reply_fault == 3 {
+                    return Err("oracle: rejected the post".into());
+                }
                 self.oracle_last = Some(s.clone());
                 self.oracle_count += 1;
                 out.events.push(Ev::Oracle { contract, sender, msg: s, funds: funds.len() });
@@ -860,6 +864,7 @@ impl World {
 
     /// raw query result (binary) or error; panics are reported as Err("PANIC: ..")
     pub fn query_raw(&self, msg: QueryMsg) -> Result<Vec<u8>, String> {
+        crate::kv::reset_reads();
         let env = self.env();
         let api = SimApi { prefix: PROTO_PREFIX };
         let q = ChainQuerier { bank: &self.bank, contract: contract_addr() };
@@ -873,6 +878,7 @@ impl World {
     }
 
     pub fn query<T: DeserializeOwned>(&self, msg: QueryMsg) -> Result<T, String> {
+        crate::kv::reset_reads();
         let env = self.env();
         let api = SimApi { prefix: PROTO_PREFIX };
         let q = ChainQuerier { bank: &self.bank, contract: contract_addr() };
